@@ -204,7 +204,8 @@ Proof.
     apply diffs_nonneg. exact Hs.
 Qed.
 
-Lemma shuffle_ts_empty perm : shuffle_ts [] perm = None.
+(* an empty series is returned unchanged (no draw is consumed) *)
+Lemma shuffle_ts_empty perm : shuffle_ts [] perm = Some ([], []).
 Proof. reflexivity. Qed.
 
 (* ------------------------------------------------------------------ *)
@@ -646,7 +647,14 @@ Proof.
     destruct (shuffle_ts ts perm) as [r0|] eqn:E1; [|discriminate].
     destruct (shuffle_members g perms') as [rs|] eqn:E2; [|discriminate].
     inversion H; subst ms. clear H. destruct (IH _ _ HV' E2) as [D1 D2].
-    destruct ts as [|t0 r]; [discriminate|]. cbn [snd length] in Hs, Hp.
+    destruct ts as [|t0 r].
+    { (* empty member: returned unchanged *)
+      cbn in E1. inversion E1; subst. split.
+      - constructor; [|exact D1]. split; cbn [fst snd]; [exact I|reflexivity].
+      - constructor; [|exact D2]. cbn [fst snd].
+        split; [reflexivity|]. split; [reflexivity|]. split; [reflexivity|].
+        split; [apply Permutation_refl|]. intros Hn; exact Hn. }
+    cbn [snd length] in Hs, Hp.
     replace (S (length r) - 1)%nat with (length r) in Hp by lia.
     destruct (shuffle_ts_spec t0 r perm Hs Hp) as (o & sp & Eo & A1 & A2 & A3 & A4 & A5).
     rewrite E1 in Eo. inversion Eo; subst r0. clear Eo.
@@ -720,11 +728,10 @@ Proof.
   exists 0, [0; 999500; 1000000], [0; 1000000]. simpl. repeat split; auto.
 Qed.
 
-(* exceptions: an empty member makes shuffle raise; a group whose members all have a single distinct
-   timestamp has an empty union of supports and the TsGroup constructor raises *)
+(* exceptions: a group whose members all have a single distinct timestamp has an empty union of supports
+   and the TsGroup constructor raises *)
 Theorem group_recomputed_support_raises :
-  shuffle_group [(0, [10; 20]); (1, [])] [[0%nat]; []] = None
-  /\ shuffle_group [(0, [10]); (1, [20; 20])] [[]; [0%nat]] = None
+  shuffle_group [(0, [10]); (1, [20; 20])] [[]; [0%nat]] = None
   /\ jitter_group false 0 100 [(0, [10]); (1, [20; 21])] [[0]; [1; 0]] = None.
 Proof. vm_compute. repeat split. Qed.
 
@@ -759,3 +766,8 @@ Proof.
   destruct (shuffle_members_spec g perms ms HV E) as [_ D2].
   rewrite <- (Forall2_length' _ _ _ D2). exact Hn.
 Qed.
+
+(* since 9bcff6e an empty member no longer makes shuffle raise: it stays empty, the others are shuffled *)
+Theorem shuffle_group_empty_member_ok :
+  shuffle_group [(0, [10; 20; 50]); (1, [])] [[1%nat; 0%nat]; []] = Some ([(0, [10; 40; 50]); (1, [])], [(10, 50)]).
+Proof. vm_compute. reflexivity. Qed.
